@@ -214,7 +214,13 @@ func build(tier string) []*vexp.Scenario {
 		bounds = []int{0, 1, 2}
 	}
 	var out []*vexp.Scenario
-	add := func(p params) { out = append(out, scenario(p, bounds)) }
+	add := func(p params) {
+		out = append(out, scenario(p, bounds))
+		// hybrid variant: preemption at the lock / atomic operations of packages actor and mailbox
+		if p.cause == "panic" && !p.provider && p.hookFail == "none" && p.prelaunch == "none" {
+			out = append(out, vexp.Fine(scenario(p, []int{0, 1}), "vivid/internal/actor.", "vivid/internal/mailbox."))
+		}
+	}
 	base := params{site: "none", cause: "panic", decision: vivid.SupervisionDecisionRestart, kill: "none", prelaunch: "none", hookFail: "none"}
 	// failure matrix
 	for _, site := range []string{"launch", "msg", "childKilled"} {
